@@ -52,7 +52,7 @@ C[K + "__sub.<locals>.subtract_ranges"] = dict(
 #   __modify_classes(S, escape=True) = E with  TV('[' + ''.join(E) + ']') = TV('[^' + ''.join(E) + ']') = view(S)
 #   __Class.__init__(t, neg, sw): TV(verbose of the instance) = TV(t)                       (what __process keeps)
 KC = "pregex.core.classes."
-C[K + "__extract_classes"] = dict(params={"pattern": "text", "unescape": "bool"}, requires="unescape", raises={},
+C[K + "__extract_classes"] = dict(params={"pattern": "text", "unescape": "bool"}, raises={},
                                   returns="extract_classes", assumed=True)
 C[K + "__modify_classes"] = dict(params={"classes": "text", "escape": "bool"}, raises={},
                                  returns="modify_classes", assumed=True)
@@ -72,4 +72,16 @@ C[K + "__chars_to_ranges"] = dict(
     loops={1: {"inv": INV_CR_OUTER, "kinds": {"chars": "run"}},
            2: {"inv": INV_CR_INNER, "kinds": {"chars": "run"}},
            3: {"inv": INV_CR_FINAL, "kinds": {"ranges_set": "rangestr", "chars_set": "char"}}},
-    enumerate_sets="runs", lists="concrete", frame=[])
+    enumerate_sets="runs", lists="concrete", returns="fresh_abs", result_shape=("range", "char"), result_escaped=True, frame=[])
+
+# __process(text, neg, simplify_word) -> (verbose text, simplified text): the verbose text lists exactly what the given
+# bracket text lists (relative to: __extract_classes parses the items, printing escaped items between brackets is faithful
+# (R7), __chars_to_ranges - proved - keeps the denotation); nothing is claimed here about the simplified text
+C[K + "__verbose_to_shorthand"] = dict(params={"classes": "text", "simplify_word": "bool"}, raises={}, returns="shorthand", assumed=True)
+C[K + "__process"] = dict(
+    params={"pattern": "bracket", "is_negated": "bool", "simplify_word": "bool"}, raises={},
+    ensures="(SAME_TEXT(result[0], '.') and SAME_TEXT(result[1], '.')) if pattern == '.' else VEQ(TV(result[0]), TV(pattern))",
+    returns="process", frame=[],
+    # shape of the text (all callers inside the library satisfy it: G9's CESC, the named classes' literals): a bracket text whose
+    # only escapes are \\ \^ \[ \] \- \/ - an item such as \n (backslash, letter) would be read as a run of two characters
+    requires_rt="CLASS_TEXT_WF(pattern)")
